@@ -252,7 +252,7 @@ fn module_of(c: &Case) -> String {
     } else {
         items.push(Item::Impl { name: "T".into(), funcs });
     }
-    Printer { style: c.style, reverse_type_attrs: false, docs_after_attrs: false }.module(&ModuleS::new("m").with(items))
+    Printer { style: c.style, reverse_type_attrs: false, docs_after_attrs: false, attr_order: 0 }.module(&ModuleS::new("m").with(items))
 }
 
 fn driver(c: &Case) -> String {
